@@ -1130,16 +1130,64 @@ fn programs(ctx: &Ctx, env: &Env) {
         T::JumpIf.into(), T::JumpIf.into(), T::HaltIf.into(), T::Halt.into(), S::Repeat.into(), S::Repeat.into(), S::RepeatEnd.into(), S::RepeatEnd.into(), A::RepeatCounter.into(), A::RepeatCounter.into(),
         M::Alloc.into(), M::Store.into(), M::Load.into(), C::Compute.into(), C::ComputeEnd.into(), S::DupFrom.into(), S::Select.into(),
     ];
-    let n = if ctx.thorough { 400_000u64 } else { 150_000 };
+    let n = if ctx.thorough { 1_500_000u64 } else { 400_000 };
     for seed in 1..=n {
         let id = format!("vmops/random/{seed}");
         if !ctx.want(&id) {
             continue;
         }
         let mut s = seed.wrapping_mul(0x9E3779B97F4A7C15) | 1;
-        let len = 3 + (xorshift(&mut s) % 12) as usize;
+        let len = if seed % 5 == 0 { 13 + (xorshift(&mut s) % 28) as usize } else { 3 + (xorshift(&mut s) % 12) as usize };
         let ops: Vec<asm::Op> = (0..len).map(|_| palette[(xorshift(&mut s) % palette.len() as u64) as usize]).collect();
         check_program(ctx, &id, &ops, 300, env);
+    }
+}
+
+/// Grammar-based program: nested repeats (both directions), conditional forward skips, compute sections (not nested), halts, loop-counter reads.
+fn gen_block(s: &mut u64, depth: usize, in_loop: bool, in_compute: bool, ops: &mut Vec<asm::Op>) {
+    use asm::{Access as A, Alu, Compute as C, Memory as M, Stack as S, TotalControlFlow as T};
+    let p = |w: Word| -> asm::Op { S::Push(w).into() };
+    let items = 1 + xorshift(s) % 3;
+    for _ in 0..items {
+        match xorshift(s) % 10 {
+            0 => ops.extend([p((xorshift(s) % 7) as Word - 3)]),
+            1 => ops.extend([p((xorshift(s) % 5) as Word), p((xorshift(s) % 5) as Word), Alu::Add.into()]),
+            2 if in_loop => ops.push(A::RepeatCounter.into()),
+            2 => ops.extend([p(1), M::Alloc.into()]),
+            3 => ops.extend([p(9), S::Pop.into()]),
+            4 | 5 if depth < 3 => {
+                ops.extend([p(1 + (xorshift(s) % 3) as Word), p((xorshift(s) % 2) as Word), S::Repeat.into()]);
+                gen_block(s, depth + 1, true, in_compute, ops);
+                ops.push(S::RepeatEnd.into());
+            }
+            6 if depth < 3 => {
+                let mut body = vec![];
+                gen_block(s, depth + 1, in_loop, in_compute, &mut body);
+                ops.extend([p(body.len() as Word + 1), p((xorshift(s) % 2) as Word), T::JumpIf.into()]);
+                ops.extend(body);
+            }
+            7 if depth < 3 && !in_compute => {
+                ops.extend([p(1 + (xorshift(s) % 2) as Word), C::Compute.into()]);
+                gen_block(s, depth + 1, in_loop, true, ops);
+                ops.push(C::ComputeEnd.into());
+            }
+            8 => ops.extend([p((xorshift(s) % 6 == 0) as Word), T::HaltIf.into()]),
+            _ => ops.extend([asm::Op::from(S::Dup), S::Pop.into()]),
+        }
+    }
+}
+
+fn structured(ctx: &Ctx, env: &Env) {
+    let n = if ctx.thorough { 600_000u64 } else { 150_000 };
+    for seed in 1..=n {
+        let id = format!("vmops/structured/{seed}");
+        if !ctx.want(&id) {
+            continue;
+        }
+        let mut s = seed.wrapping_mul(0xD1B54A32D192ED03) | 1;
+        let mut ops = vec![asm::Op::from(asm::Stack::Push(5))];
+        gen_block(&mut s, 0, false, false, &mut ops);
+        check_program(ctx, &id, &ops, if seed % 4 == 0 { 60 } else { 3000 }, env);
     }
 }
 
@@ -1182,6 +1230,7 @@ pub fn run(ctx: &Ctx) {
     use asm::{Access as A, Alu, Crypto, Memory as M, Pred, Stack as S, StateRead as R, TotalControlFlow as T};
     let env = env();
     programs(ctx, &env);
+    structured(ctx, &env);
     parent_memory(ctx);
     let pool: W = vec![
         0, 1, 2, 3, -1, -2, -3, -4, 63, 64, 65, 4095, 4096, Word::MIN, Word::MAX, Word::MIN + 1, -64,
